@@ -309,10 +309,26 @@ def judge_python(case0) -> Outcome:
     return out
 
 
+def _shift_logits(node, c):
+    """Add the constant c to every utility of every logit below `node` (utilities in raw units / a large common term):
+    a logit depends on utility differences only."""
+    if not isinstance(node, list):
+        return node
+    if node and node[0] == 'LogLogit':
+        entries = [[a, ['Plus', _shift_logits(u, c), ['Num', c]], _shift_logits(av, c)] for a, u, av in node[2]]
+        return [node[0], _shift_logits(node[1], c), entries] + node[3:]
+    return [_shift_logits(x, c) for x in node]
+
+
 @st.composite
 def strat_python(draw, tier):
     case = draw(gen.expression_cases(tier, logit=True))
     case['row'] = draw(st.integers(0, 11))
+    if draw(st.floats(0, 1)) < 0.25:
+        c = draw(st.sampled_from([300.0, -300.0, 720.0, -760.0, 1000.0]))
+        case['roots'] = [_shift_logits(r, c) for r in case['roots']]
+        case['shared'] = [_shift_logits(s_, c) for s_ in case['shared']]
+        case['logit_shift'] = c
     return case
 
 
